@@ -223,6 +223,10 @@ def write_replay(rdir, sig, v):
 
 def write_evidence(cid, tier, seed, st, table, wall, capped, new, seen_known, mod, extra):
     edir = os.path.join(VERIF, "evidence")
+    if os.path.realpath(os.environ.get("VERIF_REPO", "/repo")) != "/repo":
+        # a run against some other tree (a seeded change in a scratch worktree) must not replace the
+        # evidence of /repo's working tree
+        edir = os.path.join(VERIF, ".work", "evidence_other_tree")
     os.makedirs(edir, exist_ok=True)
     cov = dict(
         states=len(st.fps), transitions=st.transitions,
